@@ -173,7 +173,7 @@ func (r *Run) heapFrame(st *State, ct *Contract) {
 			if v.K == KSlice {
 				et := v.Ty.Underlying().(*types.Slice).Elem()
 				for _, lf := range structLeaves(et) {
-					add(sliceArrayName(et, lf.name), v.Ref)
+					add(sliceArrayName(et, lf.name)+v.Fam, v.Ref)
 				}
 			}
 		case ".":
